@@ -33,6 +33,47 @@ def hs():
     return m
 
 
+_CODE = {}
+
+
+def om_for(store, om):
+    """The ObjectMetadata `om` as an instance of the class of the module `store` was built from (after a cold
+    reload an ObjectMetadata made by the 'other process' has to be re-created, as it would be after transport)."""
+    try:
+        OM = type(store).store_object.__globals__.get("ObjectMetadata")
+    except AttributeError:
+        return om
+    if OM is None or isinstance(om, OM) or not hasattr(om, "hex_digests"):
+        return om
+    return OM(om.pid, om.cid, om.obj_size, om.hex_digests)
+
+
+def cold_module():
+    """Re-execute hashstore.filehashstore into a NEW module object and make it the current one: every
+    class-level / module-level piece of in-memory state (caches, registries) starts empty, as it does in
+    another process opening the same store.  Store instances made earlier keep the old module (they play
+    the part of the other, still running, process).  The exception classes are shared (their module is
+    not reloaded), so outcomes stay comparable."""
+    import sys
+    import types
+    import hashstore
+    old = hs()
+    code = _CODE.get(old.__file__)
+    if code is None:
+        with open(old.__file__, "rb") as f:
+            code = _CODE[old.__file__] = compile(f.read(), old.__file__, "exec")
+    m = types.ModuleType("hashstore.filehashstore")
+    m.__file__, m.__package__, m.__loader__, m.__spec__ = old.__file__, old.__package__, old.__loader__, old.__spec__
+    sys.modules["hashstore.filehashstore"] = m
+    try:
+        exec(code, m.__dict__)
+    except BaseException:
+        sys.modules["hashstore.filehashstore"] = old
+        raise
+    hashstore.filehashstore = m
+    return m
+
+
 def exc_classes():
     import hashstore.filehashstore_exceptions as e
     return e
